@@ -13,7 +13,8 @@ CLAIM = ("static analysis (interval analysis with branch refinement, dominance o
          "static analysis)")
 TECHNIQUE = "interval abstract interpretation with branch refinement + CFG dominance + reaching definitions (ast only)"
 EXPLANATION = (
-    "C19.METHOD: interval analysis seeds `method` with TOP; at every statement after the guard the interval of "
+    "C19.FORMULA: the function's guarded normal form (returned date as an expression of year and method per branch) equals the "
+    "confirmed table. C19.METHOD: interval analysis seeds `method` with TOP; at every statement after the guard the interval of "
     "`method` is within [1,3], the guard's failing edge leads to `raise ValueError`, and the guard dominates every "
     "arithmetic statement. The constants EASTER_JULIAN/ORTHODOX/WESTERN are 1/2/3 and the default is WESTERN. "
     "C19.RANGE: with year in [326,9999] (method 1) resp. [1583,4099] (methods 2,3) the month passed to date() is "
@@ -22,7 +23,7 @@ EXPLANATION = (
     "and 3, p = i - j + e, and the Gregorian branch is selected by method >= 3 only. C19.SHIFT: e reads the year only through y//100 and one "
     "threshold comparison (dependence check), so constant propagation on one representative per century/threshold "
     "class proves e == y//100 - y//400 - 2 (the Julian-to-Gregorian calendar difference) for all years 1583..4099.")
-ASSUMPTIONS = ["integer year", "the computus constants themselves are NOT checked against an independent algorithm"]
+ASSUMPTIONS = ["integer year", "the computus constants are compared with the confirmed baseline table (C19.FORMULA), not re-derived from an independent algorithm"]
 
 
 def run(ctx):
@@ -39,6 +40,14 @@ def run(ctx):
            construct="EASTER_* constants", detail=str(consts))
     dflt = f.defaults.get("method")
     ctx.ob("C19.METHOD", f, "the default method is the western one", dflt is not None and src(dflt) in ("EASTER_WESTERN", "3"), construct="default method=%s" % src(dflt))
+
+    # ---------------------------------------------------------------- C19.FORMULA
+    # the arithmetic itself, as a guarded table of the returned date over (method, year): compared with the table that was
+    # confirmed on the baseline tree by reading it against the published Meeus / Jones / Butcher and Oudin formulas.  Names of
+    # intermediates and the order of independent statements do not matter; a changed constant or operator does.
+    from .. import summ
+    summ.check_baseline(ctx, "C19.FORMULA", f, "the computus arithmetic (golden number, epact, Sunday letter, day / month split) is the confirmed one for each method",
+                        construct="easter() formula table")
 
     # ---------------------------------------------------------------- C19.METHOD
     consts_v = {k: Val(v, v) for k, v in consts.items() if v is not None}
